@@ -107,6 +107,12 @@ func (x *Exec) verifyFunc(fn *ssa.Function, con *Contract, mode string) (rep Fun
 		x.curPkg = fn.Parent().Pkg
 	}
 	x.instrOrd, x.ordinals = nil, nil
+	// names of fresh constants and bound variables restart for every function: the text of a
+	// function's queries (and with it the solvers' behaviour) is the same in every check it is part of
+	x.ctx.mu.Lock()
+	x.ctx.freshSeq = 0
+	x.ctx.mu.Unlock()
+	x.cellSeq = 0
 	x.paths = 1
 	x.entryVars = map[string]Val{}
 	rep.Key, rep.Mode = x.curKey, mode
